@@ -44,9 +44,34 @@ func newField(name string, num int32, k Kind, l Label) *Field {
 	return f
 }
 
+// EnumShapes: enums in which one option's short name is another option's prefixed name, in both
+// declaration orders (the canonical spelling of an option always denotes that option).
+var EnumShapes = []*Enum{
+	{Name: "Level", Prefix: "LEVEL_", Values: []EnumVal{{Short: "UNSPECIFIED"}, {Short: "HIGH", Num: 1, Shadowed: true}, {Short: "LEVEL_HIGH", Num: 2}}},
+	{Name: "Level", Prefix: "LEVEL_", Values: []EnumVal{{Short: "UNSPECIFIED"}, {Short: "LEVEL_HIGH", Num: 1}, {Short: "HIGH", Num: 2, Shadowed: true}}},
+}
+
+func enumShapeCases() []*Case {
+	var out []*Case
+	for i, e := range EnumShapes {
+		for _, l := range []Label{Single, Optional, Repeated, Map} {
+			f := F("f_val", 1, KEnum, l)
+			f.Enum = e
+			root := &Message{Name: "T", Fields: []*Field{f}, Full: true}
+			out = append(out, &Case{
+				ID:     fmt.Sprintf("enum-shape/%d/%s", i, l),
+				Coord:  fmt.Sprintf("kind=enum|label=%s|context=enum-shape-%d", l, i),
+				Schema: &Schema{Enums: []*Enum{e}, Messages: []*Message{root}, Root: root},
+				Under:  f, Holder: root,
+			})
+		}
+	}
+	return out
+}
+
 // SingleFieldCases: every (kind x label x context) single-field message.
 func SingleFieldCases() []*Case {
-	var out []*Case
+	out := enumShapeCases()
 	for _, k := range AllKinds() {
 		for _, l := range labelsFor(k) {
 			for _, ctx := range Contexts {
